@@ -112,6 +112,8 @@ def _label_pool(kind, n, pools, stem):
         return ['%s%d' % (stem, i) for i in range(n)]
     if kind == 'bool':
         return [False, True][:n]
+    if kind == 'float-big':      # any number of float labels, first appearance not sorted, not integer-valued
+        return [((37 * i + 3) % 101) / 4.0 + 0.125 for i in range(n)]
     return pools[kind][:n]
 
 
@@ -173,6 +175,9 @@ def _data(case, conds):
         if kind == 'counts-uint8':
             return np.minimum(k * max(1, 255 // top), 255).astype(np.uint8)
         return (k * ((2 ** 31 - 1) // top)).astype(np.int32)
+    if kind == 'counts-positive':    # counts >= 1: rates stay positive without any prior (prior_weight = 0 / prior_lambda = 0)
+        lam = 4.0 * np.exp(0.8 * rs.randn(len(uc), P))
+        return 1.0 + rs.poisson(lam[ci]).astype(float)
     if kind == 'counts-int':    # the same counts STORED AS INTEGERS (the dataset keeps the integer dtype)
         lam = 4.0 * np.exp(0.8 * rs.randn(len(uc), P))
         return rs.poisson(lam[ci]).astype(np.int64)
@@ -1230,6 +1235,33 @@ def tier_c(run, thorough):
         conds, folds = _design(C, M, R, ('int-big', 'str-big')[k % 2], ('str-big', 'int-big')[k % 2], orders[k % 4], seed=k)
         bd.check(orc_poisson, dict(seed=k, conds=conds, folds=folds, P=P, via='calc_rdm' if k % 2 else 'direct'),
                  'single-condition' if C == 1 else 'poisson_cv,large-design', function='calc_rdm_poisson_cv')
+    bd.done()
+    bds.append(bd)
+
+    # ---- 13b. many folds with text / float labels (selection of 20+ fold values at once), options that are zero -------------
+    bd = Bounded(run, 'C02/many-folds-and-zero-options', 'C02/cross-validated-rdm/oracle/mean-of-between-fold-products',
+                 'crossnobis and poisson_cv value == definition for 24 (thorough also 40) folds x 3 / 5 conditions with text, float and '
+                 'integer fold labels (first appearance not sorted); poisson_cv with a zero prior weight and / or zero prior rate on '
+                 'counts >= 1, via calc_rdm and directly', function='calc_rdm_crossnobis')
+    k = 0
+    for M in ((24, 40) if thorough else (24,)):
+        for C in (3, 5):
+            for fk in ('str-big', 'float-big', 'int-big'):
+                k += 1
+                conds, folds = _design(C, M, 1, ckinds[k % 5], fk, orders[k % 4], seed=k)
+                bd.check(orc_crossnobis, dict(seed=k, conds=conds, folds=folds, P=2 + k % 2, noise=('none', 'single', 'list')[k % 3],
+                                         remove_mean=bool(k % 2), via='calc_rdm' if k % 2 else 'direct'),
+                         'many-folds,%s-fold-labels' % fk[:-4], function='calc_rdm_crossnobis')
+                bd.check(orc_poisson, dict(seed=k, conds=conds, folds=folds, P=2, via='direct' if k % 2 else 'calc_rdm'),
+                         'poisson_cv,many-folds,%s-fold-labels' % fk[:-4], function='calc_rdm_poisson_cv')
+    k = 0
+    for (C, M, R) in [(3, 3, 1), (2, 4, 2), (4, 2, 1)]:
+        for (lam, w) in ((1, 0), (0, 0.1), (0, 0), (0.5, 0), (0, 1.0)):
+            for via in ('calc_rdm', 'direct'):
+                k += 1
+                conds, folds = _design(C, M, R, ckinds[k % 5], fkinds[k % 4], orders[k % 4], seed=k)
+                bd.check(orc_poisson, dict(seed=k, conds=conds, folds=folds, P=2 + k % 2, prior_lambda=lam, prior_weight=w, via=via,
+                                           data='counts-positive'), 'poisson_cv,zero-prior-option', function='calc_rdm_poisson_cv')
     bd.done()
     bds.append(bd)
 
